@@ -61,22 +61,70 @@ def run(ctx: common.Run):
     if not ok:
         ctx.report_unproved('lean-build', f'{failing}', {'theorem_or_correspondence': failing})
         return
-    n = 150 if ctx.tier == 'quick' else 2500
+    n = 250 if ctx.tier == 'quick' else 3000
     rng = ctx.substream('ops')
     reqs, meta = [], []
-    for i in range(n):
-        kq = rng.choice([1, 1, 2, 2, 3])
-        qudit = rng.random() < 0.15
-        if qudit:
-            dims = [rng.choice([2, 3]) for _ in range(min(kq, 2))]
-            if all(d == 2 for d in dims):
-                dims[0] = 3
-            g = gen.qudit_gate(cirq, rng, dims)
-        else:
+
+    def layout(k):
+        """qubits for a k-qubit gate: decompositions may depend on adjacency (is_adjacent) and on the order of the qubits"""
+        r = rng.random()
+        if r < 0.35:
+            return list(cirq.LineQubit.range(k))
+        if r < 0.6:
+            base = list(cirq.LineQubit.range(k))
+            rng.shuffle(base)
+            return base
+        if r < 0.8:
+            patch = rng.choice([[cirq.GridQubit(0, 0), cirq.GridQubit(0, 1), cirq.GridQubit(1, 1)], [cirq.GridQubit(0, 0), cirq.GridQubit(0, 1), cirq.GridQubit(0, 2)],
+                                [cirq.GridQubit(2, 2), cirq.GridQubit(5, 5), cirq.GridQubit(2, 3)]])
+            patch = patch[:]
+            rng.shuffle(patch)
+            return patch[:k]
+        if r < 0.9:
+            return rng.sample([cirq.LineQubit(j) for j in (0, 1, 2, 5, 6, 9)], k)
+        return rng.sample(cirq.NamedQubit.range(4, prefix='n'), k)
+
+    # systematic part: layout-dependent decompositions and special parameter values
+    pre = []
+    three = [cirq.CCX, cirq.CCZ, cirq.CSWAP, cirq.CCX**0.5, cirq.CCZ**-0.3, cirq.ThreeQubitDiagonalGate([0.1, -0.7, 1.3, 2.1, -2.9, 0.4, 1.9, -1.1]),
+             cirq.ControlledGate(cirq.ISWAP), cirq.ControlledGate(cirq.CZ**0.3)]
+    bases = [list(cirq.LineQubit.range(3)), [cirq.GridQubit(0, 0), cirq.GridQubit(0, 1), cirq.GridQubit(1, 1)], [cirq.LineQubit(0), cirq.LineQubit(1), cirq.LineQubit(5)]]
+    for g3 in three:
+        for base in bases:
+            for perm in itertools.permutations(base):
+                pre.append((g3, list(perm)))
+    for x in (0.5, -0.5, 1.5, -1.5, 2.5, -2.5, 3.5, -3.5, 1, -1, 0, 2):
+        for z, a in ((0, 0), (0.25, 0.5), (-0.3, 0.1), (1, -0.5)):
+            pre.append((cirq.PhasedXZGate(x_exponent=x, z_exponent=z, axis_phase_exponent=a), [cirq.LineQubit(0)]))
+    for fam in (cirq.X, cirq.Y, cirq.Z, cirq.H, cirq.CZ, cirq.CNOT, cirq.SWAP, cirq.ISWAP, cirq.XX, cirq.YY, cirq.ZZ):
+        for e in (0.5, -0.5, 1.5, -1.5, 2.5, 0.25, -0.25, 3):
+            pre.append((fam**e, None))
+    if ctx.tier == 'quick':
+        pre = [pre[j] for j in range(ctx.seed % 2, len(pre), 2)]
+    for i in range(n + len(pre)):
+        if i < len(pre):
+            g, forced = pre[i]
+            kq = cirq.num_qubits(g)
+            qudit = False
             dims = [2] * kq
-            g = {1: gen.one_qubit_gate, 2: gen.two_qubit_gate, 3: gen.three_qubit_gate}[kq](cirq, rng)
+        else:
+            forced = None
+            kq = rng.choice([1, 1, 2, 2, 3])
+            qudit = rng.random() < 0.15
+            if qudit:
+                dims = [rng.choice([2, 3]) for _ in range(min(kq, 2))]
+                if all(d == 2 for d in dims):
+                    dims[0] = 3
+                g = gen.qudit_gate(cirq, rng, dims)
+            else:
+                dims = [2] * kq
+                g = {1: gen.one_qubit_gate, 2: gen.two_qubit_gate, 3: gen.three_qubit_gate}[kq](cirq, rng)
         k = len(dims)
-        qs = [cirq.LineQid(j, d) if d != 2 else cirq.LineQubit(j) for j, d in enumerate(dims)]
+        if qudit:
+            qs = [cirq.LineQid(j, d) if d != 2 else cirq.LineQubit(j) for j, d in enumerate(dims)]
+        else:
+            qs = forced if forced is not None else layout(k)
+        ctx.count('layout', type(qs[0]).__name__ + ('' if list(qs) == sorted(qs) else ':permuted'))
         op = g.on(*qs)
         if not qudit and rng.random() < 0.15 and k == 1:
             g = cirq.ParallelGate(g, 2)
@@ -85,6 +133,8 @@ def run(ctx: common.Run):
             dims = [2, 2]
             k = 2
         op2, wname = wrap(cirq, rng, op) if not qudit else (op, 'none')
+        if tuple(op2.qubits) != tuple(op.qubits):
+            op2, wname = op, 'none'  # a CircuitOperation lists its qubits in sorted order: a different (equally valid) matrix layout
         u = cirq.unitary(op)
         ctx.count('wrapper', wname)
         # ---- has_* predicates
